@@ -322,6 +322,8 @@ struct St {
     prep: Vec<(G2Prepared, BigUint)>,
     /// first result seen for (k_slot, k_g1) through a prepared slot
     prep_seen: BTreeMap<(BigUint, BigUint), Vec<u8>>,
+    /// per slot: the G1 dlogs it was called with since it was (re)prepared, in call order
+    prep_calls: Vec<Vec<BigUint>>,
     /// pairing of fresh representatives, per (k1, k2)
     fresh_pair: BTreeMap<(BigUint, BigUint), Vec<u8>>,
     gt_base: Option<Gt>,
@@ -732,6 +734,7 @@ pub fn exec(spec: &GrpSpec, prop: &str) -> RunResult {
         fr: (0..n).map(|i| if i % 2 == 0 { (Fr::one(), BigUint::one()) } else { (Fr::zero(), BigUint::zero()) }).collect(),
         prep: Vec::new(),
         prep_seen: BTreeMap::new(),
+        prep_calls: vec![Vec::new(); m],
         fresh_pair: BTreeMap::new(),
         gt_base: None,
         reuse: vec![0; m],
@@ -834,6 +837,7 @@ pub fn exec(spec: &GrpSpec, prop: &str) -> RunResult {
                     res.reach(format!("{}|{}", opname, q.repr_class()));
                     st.prep[*slot % m] = (G2Prepared::from(q), k);
                     st.reuse[*slot % m] = 0;
+                    st.prep_calls[*slot % m].clear();
                     ok(Wrote::Nothing("prepared"))
                 }
                 GOp::PrepClone { slot, from, via_from } => {
@@ -854,6 +858,26 @@ pub fn exec(spec: &GrpSpec, prop: &str) -> RunResult {
                     res.reach(format!("prepobs|{}|{}", if k1.is_zero() { "O" } else { "P" }, if k2.is_zero() { "O" } else { "P" }));
                     let g = st.prep[s].0.pairing(&p).to_slice().to_vec();
                     st.reuse[s] += 1;
+                    st.prep_calls[s].push(k1.clone());
+                    // shape of the call order on this prepared value: inputs numbered by first
+                    // occurrence (e.g. 0,1,0,1), last 6 calls
+                    {
+                        let calls = &st.prep_calls[s];
+                        let tail = &calls[calls.len().saturating_sub(6)..];
+                        let mut ids: Vec<&BigUint> = Vec::new();
+                        let mut shape = String::new();
+                        for c in tail {
+                            let id = match ids.iter().position(|x| *x == c) {
+                                Some(i) => i,
+                                None => {
+                                    ids.push(c);
+                                    ids.len() - 1
+                                }
+                            };
+                            shape.push_str(&id.to_string());
+                        }
+                        res.reach(format!("call_order|{}", shape));
+                    }
                     let exp = expected_pair(&mut st, prop, &k1, &k2);
                     let mut c: Check = Ok(());
                     let key = (k2.clone(), k1.clone());
@@ -900,11 +924,17 @@ pub fn exec(spec: &GrpSpec, prop: &str) -> RunResult {
                             }
                         }
                         Wrote::G1(i) => {
-                            let c = guarded(budget.saturating_mul(8), || check_group(&mut st.g1, i, prop, true));
+                            let c = guarded(budget.saturating_mul(8), || check_group(&mut st.g1, i, prop, prop != "C03"));
                             match c {
                                 Ok(Ok(())) => {
                                     let (v, k) = st.g1.regs[i].clone();
-                                    outcome = if k.is_zero() { b"O".to_vec() } else { v.enc(Fmt::Raw) };
+                                    outcome = if k.is_zero() {
+                                        b"O".to_vec()
+                                    } else if prop == "C03" {
+                                        be32(&k).to_vec()
+                                    } else {
+                                        v.enc(Fmt::Raw)
+                                    };
                                 }
                                 Ok(Err(e)) => viol = Some(e),
                                 Err(msg) => {
@@ -915,11 +945,17 @@ pub fn exec(spec: &GrpSpec, prop: &str) -> RunResult {
                             }
                         }
                         Wrote::G2(i) => {
-                            let c = guarded(budget.saturating_mul(8), || check_group(&mut st.g2, i, prop, true));
+                            let c = guarded(budget.saturating_mul(8), || check_group(&mut st.g2, i, prop, prop != "C03"));
                             match c {
                                 Ok(Ok(())) => {
                                     let (v, k) = st.g2.regs[i].clone();
-                                    outcome = if k.is_zero() { b"O".to_vec() } else { v.enc(Fmt::Raw) };
+                                    outcome = if k.is_zero() {
+                                        b"O".to_vec()
+                                    } else if prop == "C03" {
+                                        be32(&k).to_vec()
+                                    } else {
+                                        v.enc(Fmt::Raw)
+                                    };
                                 }
                                 Ok(Err(e)) => viol = Some(e),
                                 Err(msg) => {
@@ -958,6 +994,9 @@ pub fn exec(spec: &GrpSpec, prop: &str) -> RunResult {
         dg.u64(step as u64);
         dg.bytes(&outcome);
         res.step_digests.push(dg.0);
+        // (Under C03 the monitors only run the identity / equality part (I16.1-3): encodings,
+        // affine conversion and normalize() are other properties' observers, and a fault there
+        // does not put the group element in doubt - the pairing observation must still be made.)
         // C03 speaks about the pairing entry points only. If a *group* operation disagrees
         // with the model, the model has lost track of which group elements the registers
         // hold, so nothing can be said about C03 any more: the run is abandoned (counted),
